@@ -5,7 +5,9 @@
    FD_CLOEXEC); [us] is pipes[0..stdio_count-1][1] as uv__process_child_init
    receives it (None = -1); [child_init us error_fd exec_errno t] is the child
    from process.c:320 to the exec; [spawn_child] is uv__spawn_and_init_child;
-   [uv_spawn] and [run] are the parent and the loop. *)
+   [uv_spawn] and [run] are the parent and the loop; [eff_exec_err sp] is what
+   stops the child after the shuffle: EPERM from setgid/setuid, else the errno
+   of execvp (None: the program runs). *)
 From UV Require Import Lib.Base Model.Process Proofs.ProcessProofs.
 
 (* ---- the child's descriptors ------------------------------------------ *)
@@ -195,6 +197,85 @@ Theorem C12_spawn_no_descriptor_left :
   forall d, get (r_ptbl (fst (uv_spawn sp wo))) d = get (s_tbl sp) d.
 Proof. exact spawn_no_leak. Qed.
 Print Assumptions C12_spawn_no_descriptor_left.
+
+(* ---- uid / gid ------------------------------------------------------------ *)
+
+(* UV_PROCESS_SETUID / UV_PROCESS_SETGID take effect: when the caller is
+   privileged (effective uid 0 - whatever its real and saved ids are, e.g. a
+   daemon after setresuid(user, 0, 0)) the child is exec'ed with real, effective
+   AND saved uid equal to options->uid and real, effective and saved gid equal
+   to options->gid (gid switched first); ids not asked for are inherited
+   (execve copies the effective id into the saved one: [exec_creds]). *)
+Theorem C12_uid_gid_take_effect :
+  forall sp wo,
+  (forall c, In c (s_stdio sp) -> c <> SBad) ->
+  (forall i fd, nth_error (s_stdio sp) i = Some (SFd fd) -> get (s_tbl sp) fd <> None) ->
+  s_sp_fail sp = None -> s_pipe_fail sp = false -> s_fork_fail sp = false ->
+  s_exec_err sp = None -> c_e (s_uid sp) = 0 ->
+  let r := fst (uv_spawn sp wo) in
+  r_ret r = 0%Z /\ r_active r = true /\
+  r_creds r = Some (match s_setuid sp with Some u => mkC u u u | None => exec_creds (s_uid sp) end,
+                    match s_setgid sp with Some g => mkC g g g | None => exec_creds (s_gid sp) end).
+Proof. exact uid_gid_take_effect. Qed.
+Print Assumptions C12_uid_gid_take_effect.
+
+(* for any caller: a child that reaches exec has the requested ids as its
+   effective ids (an unprivileged caller can only make its real or saved id
+   effective) and keeps the ids it did not ask to change ... *)
+Theorem C12_uid_gid_effective :
+  forall sp wo uc gc,
+  r_creds (fst (uv_spawn sp wo)) = Some (uc, gc) ->
+  (forall u, s_setuid sp = Some u -> c_e uc = u) /\
+  (forall g, s_setgid sp = Some g -> c_e gc = g) /\
+  (s_setuid sp = None -> uc = exec_creds (s_uid sp)) /\
+  (s_setgid sp = None -> gc = exec_creds (s_gid sp)).
+Proof. exact uid_gid_effective. Qed.
+Print Assumptions C12_uid_gid_effective.
+
+(* ... and a switch the kernel refuses (EPERM) is a failed spawn, never a child
+   running with other ids *)
+Theorem C12_uid_gid_refused :
+  forall sp wo,
+  (forall c, In c (s_stdio sp) -> c <> SBad) ->
+  (forall i fd, nth_error (s_stdio sp) i = Some (SFd fd) -> get (s_tbl sp) fd <> None) ->
+  s_sp_fail sp = None -> s_pipe_fail sp = false -> s_fork_fail sp = false ->
+  child_creds (s_uid sp) (s_gid sp) (s_setgid sp) (s_setuid sp) = None ->
+  let r := fst (uv_spawn sp wo) in
+  r_ret r = (- EPERM)%Z /\ r_active r = false /\ r_creds r = None.
+Proof. exact uid_gid_refused. Qed.
+Print Assumptions C12_uid_gid_refused.
+
+(* real = requested but effective/saved 0: the ids ARE switched (all 1000) *)
+Example C12_uid_gid_example :
+  r_creds (fst (uv_spawn (mkSpec [] [] true 7 10 None false false None []
+                                 (mkC 1000 0 0) (mkC 1000 0 0) (Some 1000) (Some 1000)) []))
+  = Some (mkC 1000 1000 1000, mkC 1000 1000 1000).
+Proof. vm_compute. reflexivity. Qed.
+Print Assumptions C12_uid_gid_example.
+
+(* ---- assert-enabled builds: uv__close(fd <= 2) --------------------------- *)
+
+(* uv_spawn closes the error pipe's write end and the child's end of every
+   UV_CREATE_PIPE pair with uv__close(), which asserts fd > STDERR_FILENO
+   (core.c).  Full statement "uv_spawn never trips that assertion": false. *)
+Theorem C12_spawn_no_assert_refuted :
+  ~ (forall sp wo, (forall c, In c (s_stdio sp) -> c <> SBad) -> s_sp_fail sp = None ->
+       r_trip (fst (uv_spawn sp wo)) = false).
+Proof.
+  intros H. specialize (H closed_stdio_spec [] ltac:(intros c []) eq_refl).
+  destruct closed_stdio_trips as (T & _). rewrite T in H. discriminate.
+Qed.
+Print Assumptions C12_spawn_no_assert_refuted.
+
+(* what holds: with 0, 1 and 2 open in the parent every descriptor uv_spawn
+   creates is >= 3 and no assertion can trip, on any path *)
+Theorem C12_spawn_no_assert_partial :
+  forall sp wo,
+  (forall c, In c (s_stdio sp) -> c <> SBad) -> s_sp_fail sp = None ->
+  get (s_tbl sp) 0 <> None /\ get (s_tbl sp) 1 <> None /\ get (s_tbl sp) 2 <> None ->
+  r_trip (fst (uv_spawn sp wo)) = false.
+Proof. exact spawn_no_trip. Qed.
+Print Assumptions C12_spawn_no_assert_partial.
 
 (* ---- the caller's signal mask ------------------------------------------- *)
 
